@@ -34,12 +34,12 @@ func ZZ_C03_CLIEval() {
 		p0, p1 := vf_Int32N("anp0.prio", 10), vf_Int32N("anp1.prio", 10)
 		vf_Assume(vf_And(p0 >= 0, p0 <= 1000, p1 >= 0, p1 <= 1000, p0 != p1))
 		if quickAdm {
-			g.addANP(g.zzGenANPx("anp0", p0, ing, 1, 2, 2, 2))
+			g.addANP(g.zzGenANPx("anp0", p0, ing, 1, 2, 2, 1))
 		} else {
 			g.addANP(g.zzGenANPx("anp0", p0, ing, 1, 2, 2, 3))
 		}
 		g.addANP(g.zzGenANPx("anp1", p1, ing, 1, 1, 1, 1))
-		if !quickAdm && vf_Choose("banp", 2) == 1 {
+		if vf_Choose("banp", 2) == 1 {
 			g.addBANP(g.zzGenBANPx(ing, 1, 1, 1, 1))
 		}
 	}
@@ -91,8 +91,21 @@ func ZZ_C03_CLIEval() {
 	_ = ipPeerOf
 	port = vf_DecStr(x)
 	protocol = proto
-	stopOnFirstError = !quickAdm && vf_Choose("fail", 2) == 1 // the --fail flag; the documents are all readable
-	dirPath = vf_RegisterDir("c03", zzInfosOf(g.Objs), nil)
+	// invocation variants: plain; --fail (the documents are all readable); the last document (a policy if there is
+	// one) or the first pod placed in a sub-directory
+	variant := 0
+	if !quickAdm {
+		variant = vf_Choose("variant", 4)
+	}
+	stopOnFirstError = variant == 1
+	var nested []int
+	switch variant {
+	case 2:
+		nested = []int{len(g.Objs) - 1}
+	case 3:
+		nested = []int{0}
+	}
+	dirPath = vf_RegisterDir("c03", zzInfosOf(g.Objs), nil, nested)
 
 	// what list says for the point
 	var want bool
